@@ -28,9 +28,9 @@ RULES = {
     'R1': 'READERS of the stable stores: raw readers ∩ REACH(API endpoints) = ∅',
     'R1b': 'direction of the delta revert in the three reverting accessors',
     'R2': 'heartbeat phase gating on the Slicing result; CALLERS(insert_block)',
-    'R3': 'WRITERS(ingesting_block); Paused ⇒ resume state stored; resume indices',
+    'R3': 'WRITERS(ingesting_block); Paused ⇒ resume state stored; resume indices; slicing predicate and fresh resume state as atoms',
     'R4': 'Slicing results feed a switch at every call site',
-    'R5': 'delta completeness: index/balance/delta written together in the ingestion writers (= C01.R4)',
+    'R5': 'delta completeness: index/balance/delta written together in the ingestion writers (= C01.R4); UtxosDelta insert/remove bookkeeping per field and arm',
     'R6': 'slicing-independent bookkeeping: header stored before ingestion starts (= C03.R2), height advanced on completion (= C03.R1)',
     'R7': 'the header endpoint reads the stable store strictly below the stable height: the in-progress block is served from the unstable blocks (= C07.R1)',
 }
